@@ -6,3 +6,5 @@ run C08 'TestSeedC08' './tree/' './tree/...'
 run C09 'TestSeedC09' './aggsender/query/' './aggsender/query/... ./aggsender/flows/...'
 run C17 'TestSeedC17' './aggsender/types/' './aggsender/types/... ./aggsender/flows/...'
 run C18 'TestSeedC18' './aggsender/' './aggsender/'
+run C19 'TestSeedC19' './bridgesync/' './bridgesync/... ./agglayer/types/...'
+run C20 'TestSeedC20' './bridgesync/' './bridgesync/...'
